@@ -161,6 +161,7 @@ def part_b(run, rounds):
                 continue
             lis = Listener(order)
             sim.addListener(lis)
+            consts = [lf for lf in hw.allLeaves() if type(lf).__name__ == 'Constant']
 
             def scan(where):
                 for x in order:
@@ -173,6 +174,10 @@ def part_b(run, rounds):
             for r in range(rounds):
                 for x in und:
                     x.put(rng.choice(extreme_values(x.getWidth(), rng)))
+                # the stimulus idiom of the library's own tests: the value of a Constant block is re-assigned between cycles
+                for lf in consts:
+                    if rng.random() < 0.6:
+                        lf.value = rng.choice(extreme_values(lf.outPorts[0].wire.getWidth(), rng))
                 if scan('poke'):
                     break
                 sim.clk(rng.choice([1, 1, 2]))
@@ -232,7 +237,7 @@ def script_blocks():
     return _BLOCKS['seq'], _BLOCKS['comb']
 
 
-def replay_wire(run, W, WR, table, hist, chunked):
+def replay_wire(run, W, WR, table, hist, chunked, strict=False):
     import py4hw
     ScriptSeq, TableComb = script_blocks()
     with quiet():
@@ -269,6 +274,12 @@ def replay_wire(run, W, WR, table, hist, chunked):
                               'wire %s of width %d holds %r after a driver prepared/put %s (%s, cycle %d)'
                               % ('qr'[j], widths[j], v, case['scripts'][k - 1] if k else table[0], where, k))
                 return
+        if vals != exp[k] and strict:
+            # C05: every prepared update becomes visible at the edge, the last one prepared wins, none is lost or carried over
+            run.violation('%s:wire-api:%s' % (run.pid, where), {'case': case, 'cycle': k, 'seen': vals, 'expected': exp[k]},
+                          'after the driver scripts %s the wires (q, r) show %s, the Wire model %s (%s, cycle %d)'
+                          % (case['scripts'][:k], vals, exp[k], where, k))
+            return
         if vals != exp[k]:
             run.drift_note('WireAPI: real wires show %s, the model %s (scripts %s): functional difference of prepare/settle, '
                            'judged by C05' % (vals, exp[k], case['scripts'][:k]))
@@ -281,7 +292,7 @@ def replay_wire(run, W, WR, table, hist, chunked):
                 return
 
 
-def part_c(run, configs, maxprep, cycles):
+def part_c(run, configs, maxprep, cycles, strict=False):
     for W, WR, vals in configs:
         rng = random.Random(run.seed + W * 7 + WR)
         table = [rng.choice(vals) for _ in range(1 << W)]
@@ -290,7 +301,7 @@ def part_c(run, configs, maxprep, cycles):
 
         def on(rec):
             if rec[0] == 'W':
-                replay_wire(run, W, WR, table, rec[1], chunked=(n[0] % 3 == 2))
+                replay_wire(run, W, WR, table, rec[1], chunked=(n[0] % 3 == 2), strict=strict)
                 n[0] += 1
         res = run_model('WireAPI', dict(W=W, WR=WR, Vals=set(vals), MaxPrep=maxprep, Table=table, MaxCycles=cycles),
                         run.scratch / ('wire%d%d' % (W, WR)), invariants=['TypeOK'], view='View', timeout=1800, on_record=on)
